@@ -199,6 +199,57 @@ func schedMain(args []string) int {
 					subsets = append(subsets, []string{a, b})
 				}
 			}
+			// a context that is cancelled before the persist starts, or while its j-th Store call runs: a persist
+			// that reports success must still have written every node (the stores themselves ignore the context)
+			for _, at := range []int{-1, 0, len(names) / 2} {
+				if at >= len(names) && at > 0 {
+					continue
+				}
+				w := prefix(i)
+				st := w.Store(storeID)
+				cctx, cancel := context.WithCancel(context.Background())
+				if at < 0 {
+					cancel()
+				} else {
+					var mu sync.Mutex
+					seen := 0
+					st.Gate = func(name string, b []byte) error {
+						mu.Lock()
+						if seen == at {
+							cancel()
+						}
+						seen++
+						mu.Unlock()
+						return nil
+					}
+				}
+				w.Ctx = cctx
+				rec := schedRec{Hist: hid, Index: i, Mode: "cancel", Writes: len(names), Problems: []string{}}
+				res := w.Exec(op)
+				w.Ctx = nil
+				st.Gate = nil
+				cancel()
+				if res.Outcome == "ok" {
+					if got, ok := complete(w, storeID, kind, f[2]); !ok {
+						rec.Problems = append(rec.Problems, fmt.Sprintf("MakeRoot under a context cancelled at write %d reported success but the version is incomplete: %s", at, got))
+					}
+				} else if res.Outcome == "panic" {
+					rec.Problems = append(rec.Problems, "MakeRoot panicked: "+res.ErrText)
+				} else {
+					if got := w.Exec("iter " + tid); got.Outcome != "ok" || got.Payload != contents {
+						rec.Problems = append(rec.Problems, "after the cancelled persist the tree is no longer usable / changed: "+got.Outcome+" "+got.ErrText)
+					}
+				}
+				res3 := w.Exec(op)
+				if res3.Outcome != "ok" {
+					rec.Problems = append(rec.Problems, "persist after the cancelled one failed: "+res3.ErrText)
+				} else if got, ok := complete(w, storeID, kind, f[2]); !ok {
+					rec.Problems = append(rec.Problems, "persist after the cancelled one reported success with nodes missing: "+got)
+				} else if res3.Payload != ctl.Payload {
+					rec.Problems = append(rec.Problems, "persist after the cancelled one returned a different root")
+				}
+				enc.Encode(rec)
+			}
 			for _, F := range subsets {
 				w := prefix(i)
 				st := w.Store(storeID)
